@@ -128,6 +128,8 @@ pub struct TRd {
     /// unary read past the last one never returns, by design, and is never issued)
     pub nbits: u64,
     pub ends_with_one: bool,
+    /// the byte image (driver bookkeeping about its own input, e.g. how many zeros lie ahead)
+    pub image: std::rc::Rc<Vec<u8>>,
 }
 
 impl TRd {
@@ -149,7 +151,7 @@ impl TRd {
                 .bytes("bytes", bytes),
         );
         let ends_with_one = bytes.last().map(|b| if cfg.le { b & 0x80 != 0 } else { b & 1 != 0 }).unwrap_or(false);
-        TRd { id, r, cfg: cfg.clone(), dead: false, seekable, nbits: 8 * bytes.len() as u64, ends_with_one }
+        TRd { id, r, cfg: cfg.clone(), dead: false, seekable, nbits: 8 * bytes.len() as u64, ends_with_one, image: std::rc::Rc::new(bytes.to_vec()) }
     }
 
     fn pos(&mut self) -> i64 {
@@ -224,6 +226,29 @@ impl TRd {
         }
     }
 
+    /// number of zero bits of the input ahead of the current position (capped), if the position is known.
+    /// Drivers use it to keep reads of codes on arbitrary data inside the code's domain.
+    pub fn zeros_ahead(&mut self, cap: u64) -> Option<u64> {
+        let p = match self.r.bit_pos() {
+            Some(Out::Ok(p)) => p,
+            _ => return None,
+        };
+        let mut n = 0;
+        while n < cap {
+            let i = p + n;
+            if i >= self.nbits {
+                return if self.cfg.strict() { Some(n) } else { Some(cap) };
+            }
+            let byte = self.image[(i / 8) as usize];
+            let bit = if self.cfg.le { (byte >> (i % 8)) & 1 } else { (byte >> (7 - i % 8)) & 1 };
+            if bit == 1 {
+                return Some(n);
+            }
+            n += 1;
+        }
+        Some(cap)
+    }
+
     pub fn read_unary(&mut self, tr: &mut Tr) -> Out<u64> {
         let r = self.r.read_unary();
         let e = Ev::new("read_unary").i("o", self.id);
@@ -264,7 +289,7 @@ impl TRd {
         let r2 = self.r.try_clone()?;
         let id = tr.new_id();
         tr.emit(Ev::new("clone").i("o", self.id).i("o2", id));
-        Some(TRd { id, r: r2, cfg: self.cfg.clone(), dead: self.dead, seekable: self.seekable, nbits: self.nbits, ends_with_one: self.ends_with_one })
+        Some(TRd { id, r: r2, cfg: self.cfg.clone(), dead: self.dead, seekable: self.seekable, nbits: self.nbits, ends_with_one: self.ends_with_one, image: self.image.clone() })
     }
 
     /// forget the object in the trace state
